@@ -76,7 +76,9 @@ def build(recipe):
         getattr(pp, TABLE_CREATE[e["table"]])(net, **kw)
     for tbl, order in (recipe.get("row_order") or {}).items():
         if tbl in net and len(net[tbl]):
-            net[tbl] = net[tbl].loc[list(order)]
+            listed = [i for i in order if i in net[tbl].index]
+            rest = [i for i in net[tbl].index if i not in set(listed)]
+            net[tbl] = net[tbl].loc[listed + rest]
     return net
 
 
@@ -95,11 +97,15 @@ def is_gas(recipe):
     return f["const"].get("fluid_type", "liquid") == "gas"
 
 
+def _r(v, n):
+    return round(v, n) if isinstance(v, (int, float)) and math.isfinite(v) else v
+
+
 def abbreviate(recipe):
     """Short, readable form for evidence samples."""
     out = {"fluid": recipe["fluid"] if isinstance(recipe["fluid"], str) else "const",
            "sector": recipe.get("sector", "all"),
-           "junctions": [[j["index"], round(j["pn_bar"], 3), round(j["tfluid_k"], 1), round(j.get("height_m", 0), 1),
+           "junctions": [[j["index"], _r(j["pn_bar"], 3), _r(j["tfluid_k"], 1), _r(j.get("height_m", 0), 1),
                           j.get("in_service", True)] for j in recipe["junction"]],
            "elements": []}
     for e in recipe["elements"]:
